@@ -120,6 +120,7 @@ type world struct {
 	fl      *inflight
 	fr      *rand.Rand                 // error-value stream of the storage faults (storerr.go)
 	seen    map[string]map[string]bool // operation -> storage methods journaled for it in this world
+	cr      *rand.Rand                 // stream of the context-end sweep (ctxend.go)
 }
 
 var endpointNames = []string{"authorize", "callback", "token", "introspect", "userinfo", "revoke", "end_session", "keys", "device_authorization", "discovery", "healthz", "ready"}
